@@ -301,11 +301,11 @@ def parseCOp : List String → Option (COp × List String)
   | "rvals" :: l :: r => do some (.rvals (← parseL l), r)
   | "fv" :: l :: r => do some (.fv (← parseL l), r)
   | "bv" :: l :: r => do some (.bv (← parseL l), r)
+  | "init" :: l :: r => do some (.mut (.init (← parseL l)), r)
   | k :: a :: b :: c :: r =>
     if k == "ib" || k == "ia" || k == "mvb" || k == "mva" then do some (.mut (← parseOp [k, a, b, c]), r)
-    else if k == "init" then none
     else do some (.mut (← parseOp [k, a, b]), c :: r)
-  | [k, a, b] => if k == "init" then none else do some (.mut (← parseOp [k, a, b]), [])
+  | [k, a, b] => do some (.mut (← parseOp [k, a, b]), [])
   | _ => none
 
 def parseCCall (tok : String) : Option CCall :=
